@@ -21,6 +21,8 @@ import (
 	"strings"
 	"time"
 
+	"github.com/lni/dragonboat/v4"
+	"github.com/lni/dragonboat/v4/config"
 	sm "github.com/lni/dragonboat/v4/statemachine"
 	drummer "github.com/lni/drummer/v3"
 	pb "github.com/lni/drummer/v3/drummerpb"
@@ -119,7 +121,99 @@ func malformedCall(srv pb.DrummerServer, kind string) string {
 	panic(kind)
 }
 
+// restartProbe: the service in front of a DB replica that was restarted from its own snapshot. Variants take the
+// snapshot at different points of the mailbox cycle (nothing scheduled yet / a batch waiting / a batch handed out); after
+// the restart a batch is scheduled, the addressee reports and must get exactly that batch, and every query still answers.
+func restartProbe(kind string) string {
+	h := nhx.NewDrummerDBHost()
+	srv := drummer.VerifNewServer(h.NH)
+	report := func(srv pb.DrummerServer, a string) (*pb.NodeHostRequestCollection, error) {
+		return srv.ReportAvailableNodeHost(ctx(), &pb.NodeHostInfo{RaftAddress: a, RPCAddress: "rpc-" + a, Region: "r",
+			ShardInfo: []*pb.ShardInfo{{ShardId: 1, ReplicaId: map[string]uint64{"a1": 1, "a2": 2, "a3": 3}[a], ConfigChangeIndex: 3,
+				Replicas: map[uint64]string{1: "a1", 2: "a2", 3: "a3"}}}, ShardIdList: []uint64{1}})
+	}
+	batchFor := func(a string, rid uint64) *pb.NodeHostRequestCollection {
+		return &pb.NodeHostRequestCollection{Requests: []*pb.NodeHostRequest{{Change: &pb.Request{Type: pb.Request_KILL, ShardId: 5, Members: []uint64{rid}}, RaftAddress: a}}}
+	}
+	if _, err := srv.SubmitChange(ctx(), &pb.Change{Type: pb.Change_CREATE, ShardId: 1, Members: []uint64{1, 2, 3}, AppName: "app"}); err != nil {
+		return "restart:setup-failed"
+	}
+	for _, a := range []string{"a1", "a2", "a3"} {
+		if _, err := report(srv, a); err != nil {
+			return "restart:setup-failed"
+		}
+	}
+	switch kind {
+	case "restart-batch-waiting":
+		if _, err := propose(h, &pb.Update{Type: pb.Update_REQUESTS, Requests: batchFor("a2", 8)}); err != nil {
+			return "restart:setup-failed"
+		}
+	case "restart-batch-handed-out":
+		if _, err := propose(h, &pb.Update{Type: pb.Update_REQUESTS, Requests: batchFor("a2", 8)}); err != nil {
+			return "restart:setup-failed"
+		}
+		if _, err := report(srv, "a2"); err != nil {
+			return "restart:setup-failed"
+		}
+	}
+	if _, err := h.NH.SyncRequestSnapshot(ctx(), 0, dragonboat.SnapshotOption{}); err != nil {
+		return "restart:setup-failed-snapshot"
+	}
+	dir, addr := h.Dir, h.Addr
+	h.NH.Close()
+	h = nhx.ReopenHost(dir, addr, 2)
+	if err := h.NH.StartReplica(map[uint64]string{1: addr}, false, drummer.NewDB,
+		config.Config{ReplicaID: 1, ShardID: 0, ElectionRTT: 10, HeartbeatRTT: 1}); err != nil {
+		return "restart:setup-failed-start"
+	}
+	ready := false
+	for i := 0; i < 2000 && !ready; i++ {
+		c, cancel := context.WithTimeout(context.Background(), time.Second)
+		_, err := h.NH.SyncGetSession(c, 0)
+		cancel()
+		ready = err == nil
+		if !ready {
+			time.Sleep(5 * time.Millisecond)
+		}
+	}
+	if !ready {
+		return "restart:setup-failed-ready"
+	}
+	srv = drummer.VerifNewServer(h.NH)
+	res := "restart:ok"
+	// what was waiting before the restart is still handed to its addressee, what was handed out is gone at its next report
+	if kind == "restart-batch-waiting" {
+		reply, err := report(srv, "a2")
+		if err != nil || reply == nil || len(reply.Requests) != 1 || reply.Requests[0].Change.Members[0] != 8 {
+			res = "restart:waiting-batch-lost"
+		}
+	}
+	if kind == "restart-batch-handed-out" {
+		reply, err := report(srv, "a2")
+		if err != nil || reply == nil || len(reply.Requests) != 0 {
+			res = "restart:handed-out-batch-delivered-again"
+		}
+	}
+	if _, err := propose(h, &pb.Update{Type: pb.Update_REQUESTS, Requests: batchFor("a1", 9)}); err != nil {
+		return "restart:inconclusive"
+	}
+	reply, err := report(srv, "a1")
+	if err != nil || reply == nil || len(reply.Requests) != 1 || reply.Requests[0].Change.Members[0] != 9 {
+		res = "restart:scheduled-batch-not-delivered"
+	}
+	sc, err := srv.GetShards(ctx(), &pb.Empty{})
+	if err != nil || len(sc.Shards) != 1 {
+		res = "restart:definitions-lost"
+	}
+	h.Close()
+	return res
+}
+
 func child(kind string) {
+	if strings.HasPrefix(kind, "restart-") {
+		fmt.Fprintf(os.Stderr, "CHILD-RESULT %s true\n", restartProbe(kind))
+		os.Exit(0)
+	}
 	h := nhx.NewDrummerDBHost()
 	srv := drummer.VerifNewServer(h.NH)
 	res := malformedCall(srv, kind)
@@ -196,6 +290,37 @@ func main() {
 		default:
 			safe[kind] = true
 			run.Count("c17:malformed_refused_in_child")
+		}
+	}
+	// 1b. the service in front of a replica restarted from its own snapshot, each variant in a child process (a fail-stop
+	// of the DB inside dragonboat kills the process)
+	for _, kind := range []string{"restart-nothing-scheduled", "restart-batch-waiting", "restart-batch-handed-out"} {
+		cmd := exec.Command(os.Args[0], "-probe", kind)
+		outb, err := cmd.CombinedOutput()
+		res := ""
+		for _, l := range strings.Split(string(outb), "\n") {
+			if strings.HasPrefix(l, "CHILD-RESULT ") {
+				res = strings.TrimSuffix(strings.TrimPrefix(l, "CHILD-RESULT "), " true")
+			}
+		}
+		run.Count("case:restart_probe")
+		op := map[string]interface{}{"op": "restart-probe", "kind": kind,
+			"sequence": "define shard 1; reports a1 a2 a3; [schedule a batch for a2; [report a2]]; snapshot; restart the NodeHost; schedule a batch for a1; report a1; GetShards"}
+		switch {
+		case err != nil || res == "":
+			tail := string(outb)
+			if len(tail) > 600 {
+				tail = tail[len(tail)-600:]
+			}
+			run.Violate(hx.Violation{Property: "C17", Clause: "report_never_failstops", Signature: "report-after-snapshot-restart-crashes-replica:" + kind,
+				What: fmt.Sprintf("after a restart from its own snapshot the replicated DB fail-stopped while serving a report or a request round (child process died: %v): %s", err, tail), Ops: []interface{}{op}})
+		case strings.Contains(res, "setup-failed") || strings.Contains(res, "inconclusive"):
+			run.Count("c17:restart_probe_inconclusive:" + res)
+		case res != "restart:ok":
+			run.Violate(hx.Violation{Property: "C17", Clause: "report_reply_after_restart", Signature: res + ":" + kind,
+				What: "after a restart from its own snapshot the service answered " + res, Ops: []interface{}{op}})
+		default:
+			run.Count("c17:restart_probe_ok")
 		}
 	}
 	// 2. call sequences, in process
@@ -333,6 +458,14 @@ func main() {
 					op = g.Next()
 				}
 				u := op.ToUpdate()
+				// what GetShardStates says about the reported shards just before the report (a query changes nothing)
+				type lv struct{ version, leader uint64 }
+				beforeReport := map[uint64]lv{}
+				for _, ci := range u.NodehostInfo.ShardInfo {
+					if st, err := srv.GetShardStates(ctx(), &pb.ShardStateRequest{ShardIdList: []uint64{ci.ShardId}}); err == nil && len(st.Collection) == 1 {
+						beforeReport[ci.ShardId] = lv{st.Collection[0].ConfigChangeIndex, st.Collection[0].LeaderReplicaId}
+					}
+				}
 				reply, err := srv.ReportAvailableNodeHost(ctx(), u.NodehostInfo)
 				if err != nil {
 					hx.Die("report failed: %v", err)
@@ -389,6 +522,14 @@ func main() {
 						continue
 					}
 					a := st.Collection[0]
+					if was, ok := beforeReport[ci.ShardId]; ok && was.version > ci.ConfigChangeIndex && !ci.Pending {
+						// a report for an older membership version than the view's is ignored as far as the view goes: who leads
+						// the shard is what it was before
+						run.Count("c17:leader_checked_after_older_report")
+						if a.LeaderReplicaId != was.leader || a.ConfigChangeIndex != was.version {
+							fail("query_reflects_state", "older-report-changed-leader", fmt.Sprintf("replica %d of shard %d reported leader=%v for membership version %d, older than the view's %d; GetShardStates showed leader %d before that report and shows leader %d (version %d) after it", ci.ReplicaId, ci.ShardId, ci.IsLeader, ci.ConfigChangeIndex, was.version, was.leader, a.LeaderReplicaId, a.ConfigChangeIndex))
+						}
+					}
 					if _, member := a.Replicas[ci.ReplicaId]; !member || a.ConfigChangeIndex > ci.ConfigChangeIndex {
 						continue
 					}
